@@ -15,7 +15,7 @@ TECH = "Coq proof about an executable Gallina model + extraction-based different
 
 CHECKS = {
     'C01': "Proved (all inputs): C01_conformance - for every token tree with valid class ranges and ordered bounds in the decidable class trees_exact, the program the "
-           "encoder emits matches a text iff the text is in the documented language Lang (expansions + flat-position semantics, stated without regexes); per-leaf "
+           "encoder emits matches a text iff the text is in the documented language Lang (expansions + flat-position semantics, stated without regexes); C01_built_globs_conform - the hypotheses are discharged for every glob that builds outside the three known classes, whose predicates are exactly the complement of the class (C01_class_of_conformance_is_the_complement_of_the_known_classes); per-leaf "
            "statements (`?`, `*`/`$`, classes independent of the case-folding relation, lone tree wildcard = every text incl. newline). Tie: token tree, regex text, "
            "is_match vs the extracted model engine, which is itself proved to decide the language sem (C01_model_engine_decides_the_language: sound, fuel adequate), so the differential test validates sem against the regex crate. Oracle: is_match vs the executable Spec.spec_match, proved to decide Lang for every tree and text (C01_oracle_decides_the_documented_language; C01_executables_agree); outside trees_exact only the three named known classes are tolerated.",
     'C04': "Proved (all globs, all paths, every parse the engine can end with): C04_captures_are_a_consistent_assignment - the path splits into one text per top-level "
